@@ -181,3 +181,228 @@ Proof.
     rewrite grid_count, Hl. cbn [xadd xofz xeq]. lra.
   - eexists. split; [reflexivity|]. rewrite (amb_pixel_allnan _ _ _ _ Hm), vlen_xetas. unfold vlen, xofz, xeq. reflexivity.
 Qed.
+
+(* ------------------------------------------------------------------ sampled ambiguity *)
+
+Lemma reshape_grid {A C : Type} (f : A -> Q -> C) (xs : list A) etas (c : curve) : length xs = length c ->
+  v_reshape (grid f xs etas) (vlen c) (vlen (xetas etas)) = Some (mkMat (length etas) (map (fun x => map (f x) etas) xs)).
+Proof.
+  intro Hl. unfold v_reshape. rewrite vlen_xetas. unfold vlen. rewrite grid_length, Hl.
+  replace ((0 <=? Z.of_nat (length c)) && (0 <=? Z.of_nat (length etas))
+           && (Z.of_nat (length c) * Z.of_nat (length etas) =? Z.of_nat (length c * length etas))) with true
+    by (symmetry; rewrite !andb_true_iff, !Z.leb_le, Z.eqb_eq; lia).
+  rewrite !Nat2Z.id, <- Hl, chunks_grid. reflexivity.
+Qed.
+
+Lemma map_const_repeat {A B : Type} (a : B) (l : list A) : map (fun _ => a) l = repeat a (length l).
+Proof. induction l; simpl; congruence. Qed.
+
+Theorem gen_samp_pixel_eq mn mx etas c : ~ (mn == mx)%Q ->
+  exists r, gsamp_pixel mn mx etas c = Some (r, v_ofz (samp_pixel mn mx etas c))
+            /\ xeq r (xofz (amb_pixel mn mx etas c)).
+Proof.
+  intro Hs. unfold gsamp_pixel, G.compute_ambiguity_and_sampled_ambiguity_pixel, samp_pixel. rewrite np_nanmin_embed.
+  destruct (nanmin c) as [m|] eqn:Hm; cbn [of_oq xsub xdiv xadd xneg xisnan].
+  - rewrite (qeqb_span _ _ Hs). cbn [xisnan]. rewrite (norm_embed _ _ _ Hs), setmask_isnan.
+    assert (Hl : length (map (fun x => if xisnan x then XMInf else x) (xcurve (ncurve mn mx c))) = length c).
+    { unfold xcurve, ncurve. rewrite !map_length. reflexivity. }
+    destruct (cmp_grid xle _ (XFin ((m - mn) / (mx - mn))) etas c Hl) as (t & H1 & H2).
+    rewrite H1, H2, (reshape_grid _ _ _ _ Hl).
+    unfold bm_sum0. cbn [mcols mrows]. rewrite columns_grid.
+    unfold v_assign, np_zeros, v_ofz. rewrite repeat_length, !map_length, vlen_xetas, Nat2Z.id, Nat.eqb_refl.
+    eexists. split.
+    + f_equal. f_equal. rewrite !map_map. apply map_ext. intro e. f_equal. unfold samp_amb.
+      rewrite b_sum_count. f_equal. unfold xcurve. rewrite !map_map. apply map_ext. intro x.
+      change ((m - mn) / (mx - mn))%Q with (norm mn mx m). cbn [xadd]. apply (xle_msk x).
+    + change (map (fun x => if xisnan x then XMInf else x)) with (map msk).
+      unfold amb_pixel. rewrite Hm. change ((m - mn) / (mx - mn))%Q with (norm mn mx m).
+      assert (Hl' : length (ncurve mn mx c) = length c) by (unfold ncurve; apply map_length).
+      rewrite grid_count, Hl'. cbn [xadd xofz xeq]. lra.
+  - eexists. split.
+    + f_equal. f_equal. unfold v_fill, np_zeros, v_ofz. rewrite map_map, !map_const_repeat, repeat_length, vlen_xetas, Nat2Z.id.
+      reflexivity.
+    + rewrite (amb_pixel_allnan _ _ _ _ Hm), vlen_xetas. unfold vlen, xofz, xeq. reflexivity.
+Qed.
+
+(* ------------------------------------------------------------------ loops that fill arrays *)
+
+Lemma set_at_length {A : Type} (v : list A) : forall j x, length (set_at v j x) = length v.
+Proof. induction v; destruct j; simpl; intros; auto. Qed.
+
+Lemma firstn_set_at {A : Type} (v : list A) : forall j x, (j < length v)%nat ->
+  firstn (S j) (set_at v j x) = firstn j v ++ [x].
+Proof. induction v; destruct j; simpl; intros; try lia; [reflexivity|]. f_equal. apply IHv. lia. Qed.
+
+Lemma skipn_set_at {A : Type} (v : list A) : forall j n x, (j < n)%nat -> skipn n (set_at v j x) = skipn n v.
+Proof. induction v; destruct j, n; simpl; intros; try lia; auto. apply IHv. lia. Qed.
+
+Lemma firstn_set_at_lt {A : Type} (v : list A) : forall j n x, (n <= j)%nat -> firstn n (set_at v j x) = firstn n v.
+Proof. induction v; destruct j, n; simpl; intros; try lia; auto. f_equal. apply IHv. lia. Qed.
+
+Lemma for_list_tab2 {A B : Type} (N : nat) (body : Z -> list A * list B -> option (list A * list B))
+      (f : nat -> A) (g : nat -> B) :
+  (forall i a b, (i < N)%nat -> length a = N -> length b = N ->
+     body (Z.of_nat i) (a, b) = Some (set_at a i (f i), set_at b i (g i))) ->
+  forall k s a b, (s + k = N)%nat -> length a = N -> length b = N ->
+    for_list (map Z.of_nat (seq s k)) body (a, b)
+    = Some (firstn s a ++ map f (seq s k), firstn s b ++ map g (seq s k)).
+Proof.
+  intros Hb. induction k as [|k IH]; intros s a b Hs Ha Hb'.
+  - simpl. rewrite !app_nil_r. rewrite Nat.add_0_r in Hs. subst s.
+    rewrite <- Ha at 1. rewrite firstn_all. rewrite <- Hb'. rewrite firstn_all. reflexivity.
+  - cbn [seq map for_list]. rewrite Hb by lia.
+    rewrite IH by (rewrite ?set_at_length; lia).
+    rewrite !firstn_set_at by lia. rewrite <- !app_assoc. reflexivity.
+Qed.
+
+Lemma for_range_tab2 {A B : Type} (n : Z) (body : Z -> list A * list B -> option (list A * list B))
+      (f : nat -> A) (g : nat -> B) a b :
+  length a = Z.to_nat n -> length b = Z.to_nat n ->
+  (forall i a b, (i < Z.to_nat n)%nat -> length a = Z.to_nat n -> length b = Z.to_nat n ->
+     body (Z.of_nat i) (a, b) = Some (set_at a i (f i), set_at b i (g i))) ->
+  for_range n body (a, b) = Some (map f (seq 0 (Z.to_nat n)), map g (seq 0 (Z.to_nat n))).
+Proof.
+  intros Ha Hb H. unfold for_range, np_arange.
+  rewrite (for_list_tab2 (Z.to_nat n) body f g H (Z.to_nat n) 0 a b) by lia. reflexivity.
+Qed.
+
+Lemma map_seq_nth {A B : Type} (F : A -> B) (l : list A) d :
+  map (fun j => F (nth j l d)) (seq 0 (length l)) = map F l.
+Proof.
+  induction l as [|x r IH]; [reflexivity|]. cbn [length seq map nth]. f_equal.
+  rewrite <- seq_shift, map_map. exact IH.
+Qed.
+
+Lemma col_grid {A B C : Type} (h : A -> B -> C) ps ys j d : (j < length ys)%nat ->
+  flat_map (fun r => match nth_error r j with Some x => [x] | None => [] end) (map (fun p => map (h p) ys) ps)
+  = map (fun p => h p (nth j ys d)) ps.
+Proof.
+  intro Hj. induction ps as [|p r IH]; [reflexivity|]. cbn [map flat_map]. rewrite IH.
+  rewrite nth_error_map', (nth_error_nth' ys d Hj). reflexivity.
+Qed.
+
+Lemma norm_index_nat n j : (j < n)%nat -> norm_index (Z.of_nat n) (Z.of_nat j) = Some j.
+Proof.
+  intro H. unfold norm_index.
+  replace (Z.of_nat j <? 0) with false by (symmetry; apply Z.ltb_ge; lia).
+  replace ((0 <=? Z.of_nat j) && (Z.of_nat j <? Z.of_nat n)) with true
+    by (symmetry; rewrite andb_true_iff, Z.leb_le, Z.ltb_lt; lia).
+  rewrite Nat2Z.id. reflexivity.
+Qed.
+
+(* ------------------------------------------------------------------ risk *)
+
+(* np.arange(nb_disps) * 1.0 *)
+Definition dval (z : Z) : xf := xmul (xofz z) (XFin 1).
+
+Lemma dval_le a b : Qle_bool (inject_Z a * 1) (inject_Z b * 1) = (a <=? b).
+Proof.
+  destruct (a <=? b) eqn:E.
+  - apply Z.leb_le in E. apply Qle_bool_iff. rewrite !Qmult_1_r, <- Zle_Qle. exact E.
+  - apply Z.leb_gt in E. apply Qle_bool_false. rewrite !Qmult_1_r, <- Zlt_Qlt. exact E.
+Qed.
+
+Lemma dval_min a b : xmin2 (dval a) (dval b) = dval (Z.min a b).
+Proof.
+  unfold xmin2, dval, xofz. cbn [xmul xle]. rewrite dval_le.
+  destruct (a <=? b) eqn:E; [apply Z.leb_le in E; rewrite Z.min_l by lia|apply Z.leb_gt in E; rewrite Z.min_r by lia]; reflexivity.
+Qed.
+
+Lemma dval_max a b : xmax2 (dval a) (dval b) = dval (Z.max a b).
+Proof.
+  unfold xmax2, dval, xofz. cbn [xmul xle]. rewrite dval_le.
+  destruct (a <=? b) eqn:E; [apply Z.leb_le in E; rewrite Z.max_r by lia|apply Z.leb_gt in E; rewrite Z.max_l by lia]; reflexivity.
+Qed.
+
+Lemma xgt_msk x b : xgt (msk (of_oq x)) (XFin b) = gt_nan x b.
+Proof. destruct x; reflexivity. Qed.
+
+Definition keep (b : Q) (p : xf * xf) : xf := if xgt (snd p) (XFin b) then XNaN else fst p.
+Definition dopt (o : option Z) : xf := match o with Some z => dval z | None => XNaN end.
+
+Lemma keep_eq b d x : keep b (d, msk (of_oq x)) = if gt_nan x b then XNaN else d.
+Proof. unfold keep. cbn [fst snd]. rewrite xgt_msk. reflexivity. Qed.
+
+Lemma kept_min b (nc : curve) : forall s,
+  np_nanmin (map (keep b) (combine (map dval (map Z.of_nat (seq s (length nc)))) (map msk (xcurve nc))))
+  = dopt (zmin_l (kept_from (Z.of_nat s) b nc)).
+Proof.
+  induction nc as [|x r IH]; intro s; [reflexivity|].
+  cbn [length seq map combine xcurve kept_from]. fold (xcurve r). rewrite keep_eq.
+  replace (Z.of_nat s + 1) with (Z.of_nat (S s)) by lia.
+  destruct (gt_nan x b); cbn [np_nanmin]; [apply IH|].
+  change (xisnan (dval (Z.of_nat s))) with false. cbv iota zeta. rewrite IH. cbn [zmin_l].
+  destruct (zmin_l (kept_from (Z.of_nat (S s)) b r)); cbn [dopt]; [|reflexivity].
+  change (xisnan (dval z)) with false. cbv iota. apply dval_min.
+Qed.
+
+Lemma kept_max b (nc : curve) : forall s,
+  np_nanmax (map (keep b) (combine (map dval (map Z.of_nat (seq s (length nc)))) (map msk (xcurve nc))))
+  = dopt (zmax_l (kept_from (Z.of_nat s) b nc)).
+Proof.
+  induction nc as [|x r IH]; intro s; [reflexivity|].
+  cbn [length seq map combine xcurve kept_from]. fold (xcurve r). rewrite keep_eq.
+  replace (Z.of_nat s + 1) with (Z.of_nat (S s)) by lia.
+  destruct (gt_nan x b); cbn [np_nanmax]; [apply IH|].
+  change (xisnan (dval (Z.of_nat s))) with false. cbv iota zeta. rewrite IH. cbn [zmax_l].
+  destruct (zmax_l (kept_from (Z.of_nat (S s)) b r)); cbn [dopt]; [|reflexivity].
+  change (xisnan (dval z)) with false. cbv iota. apply dval_max.
+Qed.
+
+(* disp_cv[normalized_cv > ...] = nan on the flat arrays *)
+Lemma setmask_grid {A B C D : Type} (k : A -> C -> D) (g : B -> Q -> C) (ys : list Q) : forall (ds : list A) (xs : list B),
+  length ds = length xs ->
+  zip2 k (np_repeat ds (Z.of_nat (length ys))) (grid g xs ys)
+  = grid (fun p y => k (fst p) (g (snd p) y)) (combine ds xs) ys.
+Proof.
+  unfold np_repeat, grid. rewrite Nat2Z.id.
+  induction ds as [|d ds IH]; destruct xs as [|x xs]; intro H; try discriminate; [reflexivity|].
+  cbn [flat_map combine fst snd]. rewrite zip2_app by (rewrite repeat_length, map_length; reflexivity).
+  rewrite zip2_map_r, zip2_repeat_l, IH by (simpl in H; lia). reflexivity.
+Qed.
+
+(* ---- float equality up to the representation of rationals *)
+
+Lemma xeq_refl a : xeq a a.
+Proof. destruct a; simpl; auto. reflexivity. Qed.
+
+Lemma xadd_xeq a a' b b' : xeq a a' -> xeq b b' -> xeq (xadd a b) (xadd a' b').
+Proof. destruct a, a', b, b'; simpl; intros H1 H2; try contradiction; auto. rewrite H1, H2. reflexivity. Qed.
+
+Lemma inject_Z_nonzero n : n <> 0 -> Qeq_bool (inject_Z n) 0 = false.
+Proof.
+  intro H. destruct (Qeq_bool (inject_Z n) 0) eqn:E; [|reflexivity]. apply Qeq_bool_eq in E.
+  unfold Qeq in E. simpl in E. lia.
+Qed.
+
+Lemma np_nansum_xeq l l' : Forall2 xeq l l' ->
+  xeq (fst (np_nansum l)) (fst (np_nansum l')) /\ snd (np_nansum l) = snd (np_nansum l').
+Proof.
+  induction 1 as [|x y l l' Hxy _ IH]; [split; reflexivity|]. cbn [np_nansum].
+  destruct (np_nansum l) as [s n], (np_nansum l') as [s' n']. cbn [fst snd] in IH. destruct IH as [Hs Hn]. subst n'.
+  destruct x, y; simpl in Hxy; try contradiction; cbn [xisnan fst snd]; auto;
+    (split; [|reflexivity]); apply xadd_xeq; try exact Hs; simpl; auto.
+Qed.
+
+Lemma np_nanmean_xeq l l' : Forall2 xeq l l' -> xeq (np_nanmean l) (np_nanmean l').
+Proof.
+  intro H. apply np_nansum_xeq in H. unfold np_nanmean.
+  destruct (np_nansum l) as [s n], (np_nansum l') as [s' n']. cbn [fst snd] in H. destruct H as [Hs Hn]. subst n'.
+  destruct (n =? 0) eqn:E; [exact I|]. apply Z.eqb_neq in E.
+  destruct s, s'; simpl in Hs; try contradiction; try apply xeq_refl.
+  unfold xofz. cbn [xdiv]. rewrite (inject_Z_nonzero _ E). simpl. rewrite Hs. reflexivity.
+Qed.
+
+Lemma np_nanmean_embed (l : list oq) : np_nanmean (map of_oq l) = of_oq (nanmean l).
+Proof.
+  unfold np_nanmean, nanmean.
+  assert (H : np_nansum (map of_oq l) = (XFin (fst (nansum l)), snd (nansum l))).
+  { induction l as [|[x|] r IH]; [reflexivity| |]; cbn [map of_oq np_nansum nansum]; rewrite IH;
+      destruct (nansum r); reflexivity. }
+  rewrite H. destruct (nansum l) as [s n]. cbn [fst snd]. destruct (n =? 0) eqn:E; [reflexivity|].
+  apply Z.eqb_neq in E. unfold xofz. cbn [xdiv of_oq]. rewrite (inject_Z_nonzero _ E). reflexivity.
+Qed.
+
+Lemma Forall2_map_same {A B C : Type} (R : B -> C -> Prop) (f : A -> B) (g : A -> C) l :
+  (forall x, R (f x) (g x)) -> Forall2 R (map f l) (map g l).
+Proof. intro H. induction l; simpl; constructor; auto. Qed.
